@@ -24,6 +24,8 @@ structure Obs where
   clock : Nat              -- clock when invoked
   onLoop : Bool            -- invoked on the thread inside run()
   alive : Bool             -- the loop still holds a reference (armed or queued)
+  due : Bool := false        -- the kernel reported the awaited condition (ready / hang-up / error) while it was armed
+  mustCancel : Bool := false -- its owner cancelled the (only outstanding) wait before the deadline had been reached
   deriving Repr
 
 /-- at most once, on the loop thread, never silently destroyed while the loop was not reset,
@@ -37,6 +39,11 @@ def handlerOK (resetHappened : Bool) (o : Obs) : Bool :=
       | .timer d => o.calls == 0 || (o.code == 1) || (o.code == 0 && decide (d ≤ o.clock))
       | .io => o.calls == 0 || decide (o.code ≤ 4)
       | .plain => true)
+  -- "with success when the event happened": a wait whose event was reported must have been completed by it
+  -- (invoked, and not with `canceled` by some later cancel/close) …
+  && (!o.due || (o.calls == 1 && o.code != 1))
+  -- … "or with a cancellation code if the timer was cancelled first"
+  && (!o.mustCancel || (o.calls == 1 && o.code == 1))
 
 /-- exactly once: demanded at the end of a scenario in which the loop kept running and every
     timer was cancelled / every descriptor closed before the final settling steps -/
